@@ -271,5 +271,28 @@ Definition did_url_parse (data : list N) : outcome did_url did_err :=
   obind (check_validity base cb) (fun mi =>
   Ok {| u_did := base; u_method := fst mi; u_mid := snd mi; u_path := up; u_query := uq; u_frag := uf |})))))))).
 
+(* ---- Eq / Ord / Hash of DID URLs (did_url.rs; the DID part compares by its string, did_url_parser) ---- *)
+(* str::cmp: byte-wise lexicographic *)
+Fixpoint bytes_cmp (a b : list N) : comparison :=
+  match a, b with
+  | [], [] => Eq
+  | [], _ :: _ => Lt
+  | _ :: _, [] => Gt
+  | x :: a', y :: b' => match N.compare x y with Eq => bytes_cmp a' b' | c => c end
+  end.
+Definition url_eqb (u v : did_url) : bool :=
+  list_eqb (u_did u) (u_did v) && list_eqb (oapp (u_path u)) (oapp (u_path v))
+  && list_eqb (oapp (u_query u)) (oapp (u_query v)) && list_eqb (oapp (u_frag u)) (oapp (u_frag v)).
+Definition url_cmp (u v : did_url) : comparison :=
+  match bytes_cmp (u_did u) (u_did v) with
+  | Eq => match bytes_cmp (oapp (u_path u)) (oapp (u_path v)) with
+          | Eq => match bytes_cmp (oapp (u_query u)) (oapp (u_query v)) with
+                  | Eq => bytes_cmp (oapp (u_frag u)) (oapp (u_frag v))
+                  | c => c end
+          | c => c end
+  | c => c end.
+(* Hash feeds exactly the string form to the hasher *)
+Definition url_hash_input (u : did_url) : list N := did_url_to_string u.
+
 (* known-finding class: '%' anywhere in the input (third-party percent branch) *)
 Definition K_pct (s : list N) : bool := existsb (N.eqb 37) s.
